@@ -96,7 +96,9 @@ func (d *uripostDecoder) Scan(ctx context.Context) (DecodedAmmo, error) {
 // readBlock read one header at time and set to commonHeader or read full request
 func (d *uripostDecoder) readBlock(reader *bufio.Reader, commonHeader http.Header) (*ammo.Ammo, error) {
 	data, err := reader.ReadString('\n')
-	if err != nil {
+	// the last line of a file may lack its newline: ReadString then returns the line together with io.EOF,
+	// and only the next call returns io.EOF alone
+	if err != nil && !(err == io.EOF && len(data) > 0) {
 		return nil, err
 	}
 	data = strings.TrimSpace(data)
